@@ -2,9 +2,11 @@
 EXTENDS Balloons
 \* 6 CPUs in two packages; three balloon types
 MCCpus  == 0 .. 5
-MCPkgOf == [c \in MCCpus |-> c \div 3]
-D(n, lo, hi, minb, maxb, sh) == [name |-> n, mincpus |-> lo, maxcpus |-> hi, minballoons |-> minb, maxballoons |-> maxb, shareidle |-> sh]
-MCDefs  == {D("dyn", 0, 0, 0, 0, "package"), D("solo", 1, 2, 0, 2, "system"), D("pre", 1, 3, 1, 0, "")}
+\* packages {0..3} and {4,5}; hyperthread pairs {0,1} {2,3} {4,5}
+MCPkgOf == [c \in MCCpus |-> IF c < 4 THEN 0 ELSE 1]
+MCCoreOf == [c \in MCCpus |-> c \div 2]
+D(n, lo, hi, minb, maxb, sh, hh) == [name |-> n, mincpus |-> lo, maxcpus |-> hi, minballoons |-> minb, maxballoons |-> maxb, shareidle |-> sh, hideht |-> hh]
+MCDefs  == {D("dyn", 0, 0, 0, 0, "package", FALSE), D("solo", 1, 2, 0, 2, "system", TRUE), D("pre", 1, 3, 1, 0, "", FALSE)}
 CONSTANTS c1, c2, c3
 MCCtrs == {c1, c2, c3}
 Symm == Permutations(MCCtrs)
